@@ -4,6 +4,8 @@
 #include "imgworld.h"
 #include "Stream/DynamicMemoryWriter.h"
 #include "Stream/FileWriter.h"
+#include "Stream/MemoryReader.h"
+#include "Stream/FileWriter.h"
 #include <stdexcept>
 
 using namespace OP2Utility;
@@ -38,8 +40,8 @@ struct BmpStream : Family {
 	Plan generate(const std::string&, Rng& r, bool thorough) override {
 		Plan p;
 		swarmEnv(p, r, true, true);
-		static const char* BK[] = {"mem", "file", "fileslice", "sim", "path"};
-		p.setenv("backend", BK[r.below(5)]);
+		static const char* BK[] = {"mem", "file", "fileslice", "sim", "path", "rvalue"};
+		p.setenv("backend", BK[r.below(6)]);
 		p.setenv("wbackend", r.chance(1, 2) ? "dyn" : r.chance(1, 3) ? "file" : r.chance(1, 2) ? "sim" : "path");
 		Line b = mkline("world", "bmp");
 		static const int BITS[] = {1, 4, 8};
@@ -59,6 +61,7 @@ struct BmpStream : Family {
 			switch (r.below(5)) { case 0: rows += 1; break; case 1: if (rows > 1) rows -= 1; break; case 2: rows += 3 + r.below(40); break; default: break; }
 			while (rows * pitch > (3u << 20) || rows > 130000) rows -= rowsPerBlock ? rowsPerBlock : 1;
 			h = static_cast<int64_t>(rows);
+			coarsenFaultsForBigWorld(p);
 		}
 		if (r.chance(1, 2)) h = -h;
 		uint64_t used = r.chance(1, 2) ? 0 : r.range(1, 1ull << bits);
@@ -88,6 +91,7 @@ struct BmpStream : Family {
 		ctx.setOp(0);
 		Out o = callLib(plan, [&] {
 			if (backend == "path") { disk::put("in.bmp", bytes); bf = BitmapFile::ReadIndexed(std::string("in.bmp")); return; }
+			if (backend == "rvalue") { bf = BitmapFile::ReadIndexed(Stream::MemoryReader(bytes.data(), bytes.size())); return; }
 			ReaderBox b = openBackend(backend, bytes, "in", plan.seed); bf = BitmapFile::ReadIndexed(*b.rd);
 		}, &what);
 		// the property quantifies over what the reader accepts: a reader that (with an ordinary error) refuses a file whose
@@ -110,7 +114,8 @@ struct BmpStream : Family {
 		// write, inspect the bytes with the independent layout knowledge, read back
 		std::vector<uint8_t> w1;
 		if (wb == "path") {
-			o = callLib(plan, [&] { bf.WriteIndexed(std::string("_w/p1.bmp")); }, &what);
+			bool viaRvalue = plan.seed & 1; // WriteIndexed(Writer&&) with a temporary file writer, or the filename overload
+			o = callLib(plan, [&] { if (viaRvalue) bf.WriteIndexed(Stream::FileWriter("_w/p1.bmp")); else bf.WriteIndexed(std::string("_w/p1.bmp")); }, &what);
 			if (o != OkOut) ctx.fail("C08.roundtrip", "WriteIndexed(filename) of a bitmap the reader returned failed: " + what);
 			if (!disk::get("_w/p1.bmp", w1)) ctx.fail("C08.roundtrip", "WriteIndexed(filename) left no file");
 		} else w1 = writeVia(plan, ctx, wb, "w1", "C08.roundtrip", [&](Stream::Writer& w) { bf.WriteIndexed(w); });
@@ -128,7 +133,7 @@ struct BmpStream : Family {
 			}
 		}
 		BitmapFile bf2;
-		o = callLib(plan, [&] { ReaderBox b = openBackend(backend == "sim" || backend == "path" ? "mem" : backend, w1, "re", plan.seed ^ 5); bf2 = BitmapFile::ReadIndexed(*b.rd); }, &what);
+		o = callLib(plan, [&] { ReaderBox b = openBackend((backend == "sim" || backend == "path" || backend == "rvalue") ? "mem" : backend, w1, "re", plan.seed ^ 5); bf2 = BitmapFile::ReadIndexed(*b.rd); }, &what);
 		if (o != OkOut) ctx.fail("C08.roundtrip", "the bitmap the library wrote (" + std::to_string(m.bits) + "-bit, " + std::to_string(m.palette.size()) + " of " + std::to_string(1u << m.bits) + " palette entries) was not read back: " + what);
 		if (bf2.imageHeader.width != m.w || bf2.imageHeader.height != m.h || bf2.imageHeader.bitCount != m.bits) ctx.fail("C08.roundtrip", "width/height/depth changed in the round trip");
 		if (bf2.palette.size() < m.palette.size() || bf2.palette.size() > (1u << m.bits)) ctx.fail("C08.roundtrip", "palette has " + std::to_string(bf2.palette.size()) + " entries after the round trip, " + std::to_string(m.palette.size()) + " before");
@@ -213,6 +218,7 @@ struct TilesetStream : Family {
 			static const uint64_t BLKROWS[] = {4096, 8192, 32768, 32768};
 			tiles = BLKROWS[r.below(4)] / 32 * r.range(1, 2);
 			switch (r.below(4)) { case 0: tiles += 1; break; case 1: tiles -= 1; break; default: break; }
+			coarsenFaultsForBigWorld(p);
 		}
 		t.set("seed", hex64(r.next())).set("tiles", tiles).set("bottomup", r.below(2)).set("rowpool", r.chance(1, 3) ? 1 + r.below(3) : 0);
 		p.world.push_back(t);
@@ -364,8 +370,8 @@ struct PrtStream : Family {
 	Plan generate(const std::string&, Rng& r, bool thorough) override {
 		Plan p;
 		swarmEnv(p, r, true, true);
-		static const char* BK[] = {"mem", "file", "fileslice", "sim", "path"};
-		p.setenv("backend", BK[r.below(5)]);
+		static const char* BK[] = {"mem", "file", "fileslice", "sim", "path", "rvalue"};
+		p.setenv("backend", BK[r.below(6)]);
 		p.setenv("wbackend", r.chance(1, 2) ? "dyn" : r.chance(1, 3) ? "file" : r.chance(1, 2) ? "sim" : "path");
 		Line w = mkline("world", "prt");
 		uint64_t npal = r.below(5);
@@ -392,6 +398,7 @@ struct PrtStream : Family {
 		ctx.setOp(0);
 		Out o = callLib(plan, [&] {
 			if (backend == "path") { disk::put("in.prt", bytes); art = ArtFile::Read(std::string("in.prt")); posAfter = bytes.size(); return; }
+			if (backend == "rvalue") { art = ArtFile::Read(Stream::MemoryReader(bytes.data(), bytes.size())); posAfter = bytes.size(); return; }
 			ReaderBox b = openBackend(backend, bytes, "in", plan.seed); art = ArtFile::Read(*b.rd); posAfter = b.rd->Position();
 		}, &what);
 		if (o != OkOut) ctx.fail("C10.roundtrip-equal", "a well-formed PRT (" + std::to_string(m.palettes.size()) + " palettes, " + std::to_string(m.images.size()) + " images, " + std::to_string(m.anims.size()) + " animations) was not read: " + what);
@@ -423,7 +430,7 @@ struct PrtStream : Family {
 			ctx.count("probe.non_canonical_palette_headers");
 		}
 		ArtFile art2{};
-		o = callLib(plan, [&] { ReaderBox b = openBackend(backend == "sim" || backend == "path" ? "mem" : backend, w1, "re", plan.seed ^ 3); art2 = ArtFile::Read(*b.rd); }, &what);
+		o = callLib(plan, [&] { ReaderBox b = openBackend((backend == "sim" || backend == "path" || backend == "rvalue") ? "mem" : backend, w1, "re", plan.seed ^ 3); art2 = ArtFile::Read(*b.rd); }, &what);
 		if (o != OkOut) ctx.fail("C10.roundtrip-equal", "what the library wrote was not read back: " + what);
 		if (dumpArt(art2) != before) ctx.fail("C10.roundtrip-equal", "structure read back after writing differs from the original");
 		std::vector<uint8_t> w2 = writeVia(plan, ctx, wb, "w2", "C10.byte-stable", [&](Stream::Writer& w) { art2.Write(w); });
